@@ -52,7 +52,7 @@ func earlyCloseTry(ver int, stall bool, nrecs int) bool {
 	go func() {
 		c, err := ln.Accept()
 		if err == nil {
-			b.serve(c, 1)
+			b.serve(c, 1, LeaderAddr(1))
 		}
 	}()
 	cli, err := net.Dial("tcp", ln.Addr().String())
